@@ -1,4 +1,5 @@
 import Bardic.Base
+import Bardic.Parser.Strip
 /-!
 # `resolve_includes` over an abstract file system, and the header of `format_error`
 
@@ -39,7 +40,12 @@ def joinPath (dir : Path) (rel : String) : Path :=
 def dirOf (p : Path) : Path := p.dropLast
 
 def isIncludeLine (l : String) : Bool := (pyStrip l).startsWith "@include"
-def includeArg (l : String) : String := pyStrip ((pyStrip l).drop 8).toString
+/-- `drop_inline_comment`: the line without a trailing `//` comment and the blanks before it -/
+def dropInlineComment (s : String) : String :=
+  let p := Parser.strip s.toList
+  if p.2.isEmpty then s else String.ofList (rstripL (s.toList.take (s.toList.length - p.2.length)))
+/-- the path of an `@include` line (a trailing `//` comment is not part of it) -/
+def includeArg (l : String) : String := pyStrip (dropInlineComment ((pyStrip l).drop 8).toString)
 
 def linesOf (text : String) : List String := text.splitOn "\n"
 
